@@ -1,6 +1,7 @@
 import OdmlModel.Py.Posix
 import OdmlModel.Model.PathTree
 import OdmlModel.Model.Path
+import OdmlModel.Model.PathName
 import Driver.Util
 import Driver.Loop
 open Lean Drv
@@ -203,6 +204,13 @@ def handle (j : Json) : Except String Json := do
     | "relpath" => pure (jchars (Py.Posix.relpath a (← getStr j "b").toList))
     | "relative" => pure (jchars (relativePath a (← getStr j "b").toList))
     | _ => throw s!"unknown posix function {f}"
+  | "setname" =>
+    -- child.name = new for the child at index i of a child list with the names sibs (Model/PathName.lean)
+    let sibs ← (← getArr j "sibs").toList.mapM decStr
+    let r := PathName.setName sibs (← getNat j "i") (← getStr j "oid").toList (← decOptStr (← getVal j "new"))
+    match r with
+    | .ok names => pure (jobj [("ok", jarr (names.map jchars))])
+    | .keyError => pure (jobj [("raised", Json.bool true)])
   | _ => throw s!"unknown op {op}"
 
 end DrvC14
